@@ -198,17 +198,37 @@ pub fn issue(ctx: &mut Ctx, issuer: &mut SDJWTIssuer, a: &IssueArgs) -> Out<Stri
     let jwk = a.hk.and_then(keys::jwk);
     let fmt = a.fmt.lib();
     let decoy = a.decoy;
+    // deterministic-salt build: the driver's queue, or - for drivers that do not care about salts (every driver can run against
+    // this build) - enough fresh random salts for this claim set; in that case nothing is asserted about consumption
+    #[cfg(feature = "mock")]
+    let auto_queue = ctx.mock_queue.is_empty();
     #[cfg(feature = "mock")]
     let before = {
-        let mut q = sd_jwt_rs::utils::SALTS.lock().unwrap();
+        fn nodes(v: &Value) -> usize {
+            match v {
+                Value::Object(o) => o.values().map(|x| 1 + nodes(x)).sum(),
+                Value::Array(a) => a.iter().map(|x| 1 + nodes(x)).sum(),
+                _ => 0,
+            }
+        }
+        let mut q = sd_jwt_rs::utils::SALTS.lock().unwrap_or_else(|e| e.into_inner());
         q.clear();
-        q.extend(ctx.mock_queue.iter().cloned());
+        if auto_queue {
+            use rand::RngCore;
+            for _ in 0..nodes(a.claims) + 16 {
+                let mut b = [0u8; 16];
+                rand::thread_rng().fill_bytes(&mut b);
+                q.push_back(msg::b64(&b));
+            }
+        } else {
+            q.extend(ctx.mock_queue.iter().cloned());
+        }
         q.len()
     };
     ctx.begin("issuer.issue", &a.claims.to_string());
     let res = guard(|| issuer.issue_sd_jwt(claims, strat, jwk, decoy, fmt));
     #[cfg(feature = "mock")]
-    let consumed = before - sd_jwt_rs::utils::SALTS.lock().map(|q| q.len()).unwrap_or(0);
+    let consumed: i64 = if auto_queue { -1 } else { (before - sd_jwt_rs::utils::SALTS.lock().map(|q| q.len()).unwrap_or(0)) as i64 };
     #[cfg(not(feature = "mock"))]
     let consumed = -1i64;
     let mut extra = vec![];
